@@ -27,6 +27,7 @@ func runC16(c *core.Ctx) {
 	c.RuleDoc("R16.3", "cursor stored on every paging path; stored value depends on old cursor or listing length")
 	c.RuleDoc("R16.4", "by-name listings sorted by construction")
 	c.RuleDoc("R16.5", "listing failure wrapped in *PathError")
+	c.RuleDoc("R16.9", "the cursor of a paging ReadDir moves only for a page that is returned")
 	c.RuleDoc("R16.8", "the mount table matches names against mount points on path-element boundaries (listed siblings are Stat'ed in the file system that listed them)")
 	c.RuleDoc("R16.7", "the page end is computed without integer overflow")
 	c.RuleDoc("R16.6", "the paged listing is stable per handle (memoised or sorted); children are enumerated on element boundaries")
@@ -58,6 +59,7 @@ func runC16(c *core.Ctx) {
 			windowing++
 			r16Window(c, p, tk, fn, win)
 			r16NoOverflow(c, p, tk, fn)
+			r16CursorAfterSuccess(c, p, tk, fn)
 		}
 		c.Info("readdir_delegating_"+p.Target.GOOS, delegating)
 		if windowing < 2 {
@@ -79,6 +81,7 @@ func runC16(c *core.Ctx) {
 	c.Floor("R16.6", 3)
 	c.Floor("R16.7", 2)
 	c.Floor("R16.8", 1)
+	c.Floor("R16.9", 2)
 	c.Floor("R16.1", 2)
 	c.Floor("R16.2", 2)
 	c.Floor("R16.3", 2)
@@ -830,4 +833,44 @@ func r16NoOverflow(c *core.Ctx, p *load.Program, tk string, fn *ssa.Function) {
 		c.Check(bounded, "R16.7", key, p.Pos(bo.Pos()), "the sum with n is formed only where n is bounded above by a dominating comparison",
 			fmt.Sprintf("%s adds the caller's count n to the cursor before n is bounded (%s): for a huge n on a handle that already returned a page the sum overflows to a negative number and the listing slice panics — compare n with the remainder (length - cursor) first", fname(fn), p.Pos(bo.Pos())))
 	})
+}
+
+// r16CursorAfterSuccess (R16.9): in a windowing ReadDir no error return is reachable after the cursor was advanced:
+// the page's entries are built first (each child is Stat'ed, which can fail), the cursor moves only when the page is
+// going to be returned. A cursor advanced first makes a failed page disappear: the caller that retries or keeps
+// paging never sees those children.
+func r16CursorAfterSuccess(c *core.Ctx, p *load.Program, tk string, fn *ssa.Function) {
+	cur, stores := cursorField(fn)
+	if cur == "" || len(stores) == 0 {
+		return
+	}
+	eidx := ssax.ErrorResultIndex(fn.Signature)
+	if eidx < 0 {
+		return
+	}
+	bad := ""
+	for _, st := range stores {
+		b := st.Block()
+		idx := 0
+		for i, ins := range b.Instrs {
+			if ins == ssa.Instruction(st) {
+				idx = i
+			}
+		}
+		ssax.EnumPaths(fn, b, idx+1, ssax.NewPathState(), ssax.PathHooks{
+			End: func(ps *ssax.PathState, last ssa.Instruction) {
+				r, ok := last.(*ssa.Return)
+				if !ok || bad != "" {
+					return
+				}
+				e := ps.Resolve(resolveSpilledOnPath(r.Results[eidx], r, ps))
+				if ssax.IsNilConst(e) || ps.NilOf(e) == ssax.IsNil || ssax.IsGlobalLoad(ssax.Unwrap(e), "io", "EOF") {
+					return
+				}
+				bad = p.Pos(r.Pos())
+			},
+		})
+	}
+	c.Check(bad == "", "R16.9", tk+".ReadDir|cursor-advanced-only-for-a-returned-page", p.Pos(fn.Pos()), "no failing return is reachable after the cursor was advanced",
+		fmt.Sprintf("%s advances the handle's cursor and can still fail afterwards (return at %s): the entries of the failed page are consumed — a caller that keeps paging gets a, b, e, f, g of a..g, and a retried ReadDir(-1) answers an empty list with a nil error", fname(fn), bad))
 }
